@@ -366,7 +366,37 @@ func genSeqScript(rng *rand.Rand, prof string, idx, ln int) seqScript {
 	if g.cfg.Expiry != "none" && g.cfg.Scale >= (1<<20) && rng.Intn(2) == 0 && ln > 20 {
 		slowAt = rng.Intn(ln - 10)
 	}
+	// motif "full stripe, then a shortened deadline": sixteen recorded reads fill the (single) stripe of the lossy read buffer, the next event -
+	// that of a SetExpiresAfter which SHORTENS a deadline - is the one that gets dropped; the deadline passes by more than two timer ticks and
+	// maintenance runs: the entry must be gone and reported (C13), whatever the read buffer dropped (C17: "dropping reads never changes what any
+	// cache operation returns")
+	fullAt := -1
+	if g.cfg.Expiry != "none" && g.cfg.NK >= 2 && g.cfg.Scale >= (1<<20) && rng.Intn(2) == 0 && ln > 20 {
+		fullAt = rng.Intn(ln - 10)
+	}
 	for i := 0; i < ln; i++ {
+		if i == fullAt {
+			k := g.key()
+			k2 := (k + 1) % g.cfg.NK // the recorded reads are reads of ANOTHER entry (replaying a read of the same node would move its timer anyway)
+			sc.Ops = append(sc.Ops, seqOp{Op: "SetMaximum", M: int64(g.cfg.NK), Ks: []int{}, Supply: []int{}},
+				seqOp{Op: "Set", K: k, V: g.val(), Ks: []int{}, Supply: []int{}},
+				seqOp{Op: "SetExpiresAfter", K: k, D: 1 << 18, Ks: []int{}, Supply: []int{}},
+				seqOp{Op: "Set", K: k2, V: g.val(), Ks: []int{}, Supply: []int{}},
+				seqOp{Op: "SetExpiresAfter", K: k2, D: 1 << 18, Ks: []int{}, Supply: []int{}},
+				seqOp{Op: "CleanUp", Ks: []int{}, Supply: []int{}})
+			for j := 0; j < 16; j++ {
+				sc.Ops = append(sc.Ops, seqOp{Op: "GetIfPresent", K: k2, Ks: []int{}, Supply: []int{}})
+			}
+			adv := (int64(3) << 30) / g.cfg.Scale
+			if adv < 3 {
+				adv = 3
+			}
+			sc.Ops = append(sc.Ops, seqOp{Op: "SetExpiresAfter", K: k, D: 1, Ks: []int{}, Supply: []int{}},
+				seqOp{Op: "Advance", D: adv, Ks: []int{}, Supply: []int{}},
+				seqOp{Op: "CleanUp", Ks: []int{}, Supply: []int{}},
+				seqOp{Op: "EstimatedSize", Ks: []int{}, Supply: []int{}})
+			total += adv
+		}
 		if i == slowAt {
 			all := []int{}
 			for j := 0; j < g.cfg.NK; j++ {
